@@ -25,8 +25,8 @@ MEMO_ASSUME = [
 ]
 
 PROPS = {
-    'C13': dict(level='proof', level_text='two layers. Verus (unbounded, all variant pairs): compare_values orders exactly the same-type ordered scalars and is NotComparable otherwise, compare_lt/le/gt/ge answer from that one Ordering (trichotomy, <= iff < or ==, mixed types satisfy nothing: lemma L-cmp), impl PartialEq = documented special pairs or Ordering::Equal; std comparisons are uninterpreted there. Kani (loop-free, complete over the full scalar domains i64, finite f64, char, variant pairs, inclusive bits): the numeric content of those comparisons and of is_within on the real code', level_note='regex engine trusted (stubbed); format! stubbed; string order (std), list / map structural equality (compare_eq loops, derived PartialEq of MapValue / Vec) and `in [..]` list scanning in operators.rs are NOT decided', vgroups=['compare'], kunits=['U-cmp-int', 'U-cmp-float', 'U-cmp-char-null-bool', 'U-cmp-types', 'U-peq-same', 'U-within', 'U-unary-op-k'],
-                assumptions=COMMON_ASSUME + KANI_ASSUME + ['ASSUMED uninterpreted models (verus/prelude_cmp.rs) of Ord::cmp on String / char, f64::partial_cmp, `==` on String / Vec<PathAwareValue> / MapValue, WithinRange::is_within, fancy_regex::Regex::{new, is_match}; is_match on a compiled expression is assumed not to fail (the repository comment says so)', 'PathAwareValue::type_info assumed (message text only)'],
+    'C13': dict(level='proof', level_text='two layers. Verus (unbounded, all variant pairs): compare_values orders exactly the same-type ordered scalars and is NotComparable otherwise, compare_lt/le/gt/ge answer from that one Ordering (trichotomy, <= iff < or ==, mixed types satisfy nothing: lemma L-cmp), impl PartialEq = documented special pairs or Ordering::Equal; std comparisons are uninterpreted there. Kani (loop-free, complete over the full scalar domains i64, finite f64, char, variant pairs, inclusive bits): the numeric content of those comparisons and of is_within on the real code', level_note='regex engine trusted (stubbed); format! stubbed; string order (std), list / map structural equality (compare_eq loops, derived PartialEq of MapValue / Vec) and `in [..]` list scanning in operators.rs are NOT decided', vgroups=['compare', 'opmatch'], kunits=['U-cmp-int', 'U-cmp-float', 'U-cmp-char-null-bool', 'U-cmp-types', 'U-peq-same', 'U-within', 'U-unary-op-k'],
+                assumptions=COMMON_ASSUME + KANI_ASSUME + ['ASSUMED uninterpreted models (verus/prelude_cmp.rs) of Ord::cmp on String / char, f64::partial_cmp, `==` on String / Vec<PathAwareValue> / MapValue, WithinRange::is_within, fancy_regex::Regex::{new, is_match} (is_match may fail at run time: re_runs)', 'group opmatch: match_value holds for every comparator closure (call_requires / call_ensures), no assumption on the error kinds it returns', 'PathAwareValue::type_info assumed (message text only)'],
                 not_under_contract=['regex engine (fancy_regex) - trusted', 'string comparison (lexicographic order): std, its Kani unit did not finish', 'compare_eq on lists / maps (iterator zip / IndexMap loops: outside the extractable subset; Kani cannot build IndexMap)', 'derived PartialEq of MapValue / Vec<PathAwareValue>', '`X in [v1..vn]` (operators.rs)'],
                 explanation=''),
     'C01': dict(level='proof', vgroups=['eval', 'eval_blocks', 'eval_disp', 'cnf', 'index', 'memo', 'memo_block'],
@@ -37,7 +37,7 @@ PROPS = {
                 level_note='query traversal (keys, *, [*], filters, variables, key-case converters) and list flattening in operators.rs are NOT under contract: a change confined to query_retrieval_with_converter is not detected by this check',
                 not_under_contract=['query_retrieval_with_converter', 'operators.rs list-valued Eq/In', 'eval_guard_block_clause', 'eval_type_block_clause', 'key capture (add_variable_capture_key)', 'parser'],
                 explanation=''),
-    'C08': dict(level='proof', vgroups=['eval', 'eval_blocks', 'eval_disp', 'cnf', 'index', 'index2', 'tracker', 'tables', 'validate', 'validate_data', 'structured', 'failed', 'exit', 'status', 'merge', 'report'],
+    'C08': dict(level='proof', vgroups=['eval', 'eval_blocks', 'eval_disp', 'cnf', 'opmatch', 'compare', 'index', 'index2', 'tracker', 'tables', 'validate', 'validate_data', 'structured', 'failed', 'exit', 'status', 'merge', 'report'],
                 kunits=['U-substr', 'U-call', 'U-cnf', 'U-count', 'U-conv', 'U-join', 'U-expect', 'U-xr'],
                 kunits_quick=['U-substr', 'U-call'],
                 assumptions=EVAL_ASSUME + KANI_ASSUME,
@@ -79,4 +79,4 @@ PROPS = {
 }
 
 HOOK_COMMITS = ['cb466a2', 'c4d9d89']
-FIX_COMMITS = ['d9c6e7f', '4e65a31', '80b223b', '52f4f87', 'ecd0109', '3be0b7e']
+FIX_COMMITS = ['d9c6e7f', '4e65a31', '80b223b', '52f4f87', 'ecd0109', '3be0b7e', 'b2890e1']
